@@ -409,6 +409,11 @@ pub struct OeWorld {
     pub spares: Vec<Option<Addr>>,
     /// id <-> text of token uris and (canonical JSON of) extensions
     pub blobs: Ids,
+    /// harness ledger: tokens burned on the collection by their holders (they stay "issued")
+    pub holder_burned: u64,
+    /// harness ledger: what the collection stored for each token right after its mint
+    /// (id, owner, token_uri, extension), in mint order
+    pub mint_ledger: Vec<(u64, String, Value, Value)>,
     pub addrs: Ids,
     pub denoms: Ids,
     pub t0: u64,
@@ -524,6 +529,8 @@ impl OeWorld {
             spare_whitelist: None,
             spares: vec![],
             blobs: Ids::with_fixed(&[], 1),
+            holder_burned: 0,
+            mint_ledger: vec![],
             addrs,
             denoms,
             t0,
@@ -897,7 +904,8 @@ impl OeWorld {
         v.push(self.total_mint_count() as u128);
         optn(&mut v, self.mintable().map(|x| x as u128));
         v.push(self.token_index_raw() as u128);
-        v.push(self.num_tokens_collection() as u128);
+        // tokens ever handed to the collection = live tokens + tokens their holders burned (ledger)
+        v.push((self.num_tokens_collection() + self.holder_burned) as u128);
         optn(&mut v, self.trading_time().map(|x| x as u128));
         for a in self.count_accounts() {
             let (c, wl) = self.mint_count(&a);
@@ -1008,6 +1016,11 @@ pub enum OeOp {
     BaseSudoParams { min_price: Option<u128>, mint_fee_bps: Option<u64> },
     /// the collection creator hands the collection over
     BaseSetCreator { who: String, new: String },
+    // ---- holder side (both worlds), sent to the COLLECTION, not a minter step ----
+    /// cw721 Burn of `token_id` by `who` (`who` may be "@owner": whoever holds the token right now)
+    Burn { who: String, token_id: u32 },
+    /// cw721 TransferNft of `token_id` from `who` to `to`
+    TransferNft { who: String, to: String, token_id: u32 },
 }
 
 pub fn oe_op_kind(op: &OeOp) -> &'static str {
@@ -1026,6 +1039,8 @@ pub fn oe_op_kind(op: &OeOp) -> &'static str {
         OeOp::SetWhitelist { .. } => "set_whitelist",
         OeOp::SudoParams { .. } => "sudo_params",
         OeOp::Migrate { .. } => "migrate",
+        OeOp::Burn { .. } => "holder_burn",
+        OeOp::TransferNft { .. } => "holder_transfer",
         OeOp::BaseMint { .. } => "base_mint",
         OeOp::BaseUpdateStartTradingTime { .. } => "base_update_start_trading_time",
         OeOp::BaseSudoParams { .. } => "base_sudo_params",
@@ -1089,6 +1104,21 @@ impl OeWorld {
                 let f = self.factory.clone();
                 let r = chain::sudo(&mut self.app, &f, &msg);
                 return not_step(r.is_ok(), r.err());
+            }
+            OeOp::Burn { who, token_id } => {
+                let (m, c) = (self.minter.clone(), self.collection.clone());
+                let who = crate::w_sale::resolve_holder(&self.app, &c, who, *token_id);
+                let (ok, err) = crate::w_sale::holder_op(&mut self.app, &m, &c, &who, &json!({"burn": {"token_id": token_id.to_string()}}));
+                if ok {
+                    self.holder_burned += 1;
+                }
+                return not_step(ok, err);
+            }
+            OeOp::TransferNft { who, to, token_id } => {
+                let (m, c) = (self.minter.clone(), self.collection.clone());
+                let who = crate::w_sale::resolve_holder(&self.app, &c, who, *token_id);
+                let (ok, err) = crate::w_sale::holder_op(&mut self.app, &m, &c, &who, &json!({"transfer_nft": {"recipient": to, "token_id": token_id.to_string()}}));
+                return not_step(ok, err);
             }
             OeOp::Migrate { who, stored } => {
                 if let Some((n, v)) = stored {
@@ -1233,6 +1263,9 @@ impl OeWorld {
             if matches!(op, OeOp::Mint { .. } | OeOp::MintM { .. } | OeOp::MintTo { .. }) {
                 if let Some(id) = minted_from_events(r) {
                     minted = Some((id, owner_of(&self.app, &self.collection, id)));
+                    if let Some(t) = self.token_info(id) {
+                        self.mint_ledger.push(t);
+                    }
                 }
             }
         }
@@ -1301,20 +1334,19 @@ impl OeWorld {
         let ext = self.blob_id(&nd["extension"]);
         format!("(mkNft {} {} {})", coq_bool(onchain), coq_opt_n(uri), coq_opt_n(ext))
     }
-    /// what the collection stores for each token it holds: (id, owner, token_uri, extension), ascending id
+    /// what the collection stores for one token: (id, owner, token_uri, extension)
+    pub fn token_info(&self, id: u64) -> Option<(u64, String, Value, Value)> {
+        let v = self
+            .app
+            .wrap()
+            .query_wasm_smart::<Value>(self.collection.clone(), &json!({"all_nft_info": {"token_id": id.to_string(), "include_expired": null}}))
+            .ok()?;
+        Some((id, v["access"]["owner"].as_str().unwrap_or("").to_string(), v["info"]["token_uri"].clone(), v["info"]["extension"].clone()))
+    }
+    /// what the collection stored for each token right after its mint (the ledger; holders may
+    /// have transferred or burned the tokens since), in mint order
     pub fn stored_tokens(&self) -> Vec<(u64, String, Value, Value)> {
-        let mut ids: Vec<u64> = self.all_tokens().iter().map(|t| t.parse().unwrap_or(0)).collect();
-        ids.sort();
-        ids.iter()
-            .map(|id| {
-                let v = self
-                    .app
-                    .wrap()
-                    .query_wasm_smart::<Value>(self.collection.clone(), &json!({"all_nft_info": {"token_id": id.to_string(), "include_expired": null}}))
-                    .unwrap();
-                (*id, v["access"]["owner"].as_str().unwrap_or("").to_string(), v["info"]["token_uri"].clone(), v["info"]["extension"].clone())
-            })
-            .collect()
+        self.mint_ledger.clone()
     }
     pub fn stored_tokens_coq(&mut self) -> String {
         let toks = self.stored_tokens();
@@ -1390,6 +1422,8 @@ pub struct BaseWorld {
     pub denoms: Ids,
     pub t0: u64,
     pub initial_supply: BTreeMap<String, u128>,
+    /// harness ledger: tokens burned on the collection by their holders (they stay "issued")
+    pub holder_burned: u64,
 }
 
 impl BaseWorld {
@@ -1442,6 +1476,7 @@ impl BaseWorld {
             denoms,
             t0,
             initial_supply: BTreeMap::new(),
+            holder_burned: 0,
         };
         let mut found = false;
         for n in (0..20).rev() {
@@ -1496,7 +1531,8 @@ impl BaseWorld {
             .unwrap()
     }
     pub fn observe(&self) -> Vec<u128> {
-        let mut v = vec![self.config_price(), self.token_index_raw() as u128, self.num_tokens_collection() as u128];
+        // third slot: tokens ever handed to the collection = live tokens + tokens their holders burned (ledger)
+        let mut v = vec![self.config_price(), self.token_index_raw() as u128, (self.num_tokens_collection() + self.holder_burned) as u128];
         match trading_time(&self.app, &self.collection) {
             Some(t) => v.extend([1, t as u128]),
             None => v.extend([0, 0]),
@@ -1561,6 +1597,21 @@ impl BaseWorld {
                 let c = self.collection.clone();
                 let r = chain::exec(&mut self.app, who, &c, &msg, &[]);
                 return not_step(r.is_ok(), r.err());
+            }
+            OeOp::Burn { who, token_id } => {
+                let (m, c) = (self.minter.clone(), self.collection.clone());
+                let who = crate::w_sale::resolve_holder(&self.app, &c, who, *token_id);
+                let (ok, err) = crate::w_sale::holder_op(&mut self.app, &m, &c, &who, &json!({"burn": {"token_id": token_id.to_string()}}));
+                if ok {
+                    self.holder_burned += 1;
+                }
+                return not_step(ok, err);
+            }
+            OeOp::TransferNft { who, to, token_id } => {
+                let (m, c) = (self.minter.clone(), self.collection.clone());
+                let who = crate::w_sale::resolve_holder(&self.app, &c, who, *token_id);
+                let (ok, err) = crate::w_sale::holder_op(&mut self.app, &m, &c, &who, &json!({"transfer_nft": {"recipient": to, "token_id": token_id.to_string()}}));
+                return not_step(ok, err);
             }
             OeOp::BaseMint { .. } | OeOp::BaseUpdateStartTradingTime { .. } => {}
             _ => return not_step(false, Some("open-edition op on a base world".into())),
